@@ -712,6 +712,16 @@ func (e *SpecEnv) call(x *ast.CallExpr) *Val {
 			return e.fail("visited() is only available in invariants of a loop ranging over a map")
 		}
 		return &Val{T: boolT, S: e.visited(e.fr.termOf(arg(0)))}
+	case "called":
+		// called(Callee, n): the n-th call of Callee was executed on the way here (its path condition)
+		if len(x.Args) == 2 {
+			key := exprText(x.Args[0]) + "#" + exprText2(x.Args[1])
+			if r, ok := e.fr.siteReach[key]; ok {
+				return &Val{T: boolT, S: r}
+			}
+			return &Val{T: boolT, S: "false"}
+		}
+		return e.fail("called(callee, n) needs two arguments")
 	case "dominatedBy":
 		if e.siteDominated != nil && len(x.Args) == 2 {
 			var n int
